@@ -29,4 +29,7 @@ def run(tier: str, seed: int):
         serial = list(F.fam_faults(1, 4, max_faults=2, kinds=('raise',)))
         rule = 'n<=4 fault sets <=2 batch<=3; n=5 single faults; pre-cache x faults n<=4'
         e3c = list(F.fam_e3(F.fam_faults(1, 3, max_faults=2), workers=(1, 2, None), die_exit0=(False, True, -36, 3))) + list(F.fam_e3(F.fam_faults(2, 3, max_faults=1, reqs='all', pre=True, bust=(True,)), workers=(2,), liveness=False)) + list(F.fam_e3(F.fam_faults(4, 4, max_faults=1, reqs='sinks'), workers=(2,), liveness=False))
+    if tier != 'quick':
+        x_cf, x_se, x_e3 = F.thorough_extras('C10')
+        cfgs, serial, e3c = list(cfgs) + x_cf, list(serial) + x_se, list(e3c) + x_e3
     return run_e2_property('C10', tier, seed, cfgs, serial_configs=serial, e3_configs=e3c, hash_slices=([('faults3', 1)] if tier == 'quick' else [('faults3', 1), ('faults3', 2), ('faults4', 1)]), real_cases=list(F.fam_real(F.real_bases('faults'), workers=(1, 2))), rule=rule, assumptions=ASSUME)
